@@ -306,6 +306,14 @@ func c19Histories(r *core.Run) {
 		cfg := wworld.FullCfg()
 		cfg.WalletRestart = true
 		s.AfterOp = c19Watch(r, w, wallets, s, sig)
+		// beyond the stated quantifier (histories): two mint operations of one wallet at the same moment
+		// must both succeed and must not use a counter twice (the watch above sees every B_ they submit)
+		for k := 0; k < 3; k++ {
+			if err := s.OpConcurrentMints(w.Wallets[0], w.Wallets[0].DefaultURL); err != nil {
+				r.Violate("concurrent-mints:failed", "two paid quotes of one wallet minted at the same moment: "+err.Error(), sig, s.Tail(4))
+				break
+			}
+		}
 		if len(w.Mints) == 2 {
 			// directed: SIG_ALL P2PK tokens received with swap-to-trusted (the wallet first swaps them
 			// at the token's mint with outputs of its own), twice from a mint the receiver does not
